@@ -4,15 +4,29 @@
 Case syntax (one history per line):
   pool <lo> <hi> <E> e1..eE ; ops         A<sid> R<sid>,<addr> L<addr> C<addr> D0|D1 V
   pd <net> <nbits> <plen> ; ops           A<sid> R<sid>,<pfx> L<pfx> C<pfx> D0|D1 V
-  reg4|reg6 <P> {<pf> <gw> <K> {<pool> <prio> <vrf> <net> <lo> <hi> <gw> <E> {<a> <b>}}} ; ops
-        A<sid>,<pf>,<override>,<vrf>  L<pf>/<pool>,<addr>  P<sid>,<pf>/<pool>,<addr>  R<sid>,<addr>  I<addr>
-        D0|D1  V<pf>/<pool>  O<pf>
+  reg <P> {<pf> <fam 4|n|d> <gw> <K> {<pool> <prio> <vrf> <net> <lo|plen> <hi> <gw> <E> {<a> <b>}}} ; ops
+        (f = family 4 | n (IA_NA) | d (PD); arg = addr for 4/n, pfx for d; key = <pf>/<pool>)
+        A<f><sid>,<pf>,<override>,<vrf>  L<f><key>,<arg>  P<f><sid>,<key>,<arg>  R<f><sid>,<arg>
+        Q<f><key>,<arg> (Release*InPool)  I<f><arg> (ReleaseIP / ReleaseIANAByIP / ReleasePDByPrefix)
+        D0|D1  V<f><key>  O<f><pf>
+        all IPv4 lists first, then per v6 profile its IA_NA list before its PD list
+  res <profiles as for reg, pools of one family disjoint> ; ops      (pkg/dhcp harness, exported API only)
+        Y<sid>,<pf>,<override>,<vrf>,<addr|->   Z<sid>,<pf>,<naov>,<pdov>,<vrf>,<addr|->,<pfx|->   A.. L.. I..
   addr: 4:<dec> | 6:<dec> | nil | bad      pfx: nil | <addr>/<ones>:<bits> | <addr>/mnil | <addr>/mbad
 """
 ID = "C01"
 HARNESSES = [dict(name="allocator", pkg="./pkg/allocator/", test="TestVerifC01", timeout=900,
-                  files=[("pkg/allocator/zz_verif_c01_test.go", "harness/C01/zz_verif_c01_test.go")])]
-VARIANTS = ["repaired", "defective"]
+                  files=[("pkg/allocator/zz_verif_c01_test.go", "harness/C01/zz_verif_c01_test.go")]),
+             dict(name="dhcp", pkg="./pkg/dhcp/", test="TestVerifC01Resolve", timeout=900,
+                  files=[("pkg/dhcp/zz_verif_c01_resolve_test.go", "harness/C01/zz_verif_c01_resolve_test.go")])]
+# repaired: every recorded defect repaired; sharedvrf: one poolVRFs map for the three families (HEAD);
+# defective: additionally the two defects fixed by d00d766 / c2652db
+VARIANTS = ["repaired", "sharedvrf", "defective"]
+
+
+def route(case):
+    return "dhcp" if case.startswith("res ") else "allocator"
+
 MODEL_NEEDS_IMPL = True
 RULE = ("pool: v4/v6 ranges of 1-40 addresses at carry boundaries (octet, 2^32 near-top, 64-bit word), 0-5 "
         "exclusions drawn from {inside, ends, outside, other family, v4-mapped form}; histories of 5-60 ops "
@@ -217,99 +231,186 @@ def gen_pd(rng, maxops=50):
     return "pd %d %d %d ; %s" % (net, nb, pl, " ".join(ops))
 
 
-def gen_reg(rng, maxops=40):
-    v6 = rng.random() < 0.3
-    fam = 6 if v6 else 4
-    width = 128 if v6 else 32
-    nets = []
-    for j in range(4):
-        bits = rng.choice([29, 30, 30, 28]) if not v6 else rng.choice([125, 126, 126, 124])
-        basen = ((0x0a000000 if not v6 else 0x20010db8 << 96) + (j << (width - bits + 1))) if rng.random() < 0.7 \
-            else (0x0a000000 if not v6 else 0x20010db8 << 96)
-        nets.append((basen, bits))
-    profs = []
-    allkeys = []
-    toks = []
-    np_ = rng.choice([1, 1, 2, 2, 3])
-    for pf in range(1, np_ + 1):
-        nk = rng.choice([0, 1, 2, 2, 3, 3, 4])
-        pgw = rng.choice(["-", "-", "junk"]) if v6 else rng.choice(["-", "junk", atok(4, 0x0a000001)])
-        ptoks = [str(pf), pgw, str(nk)]
-        for j in range(nk):
-            name = rng.choice([1, 2, 3, 4, 5]) if rng.random() < 0.25 else j + 1
-            prio = rng.choice([-1, 0, 0, 1, 1, 2, 5, 10])
-            vrf = rng.choice([0, 0, 1, 1, 2])
-            basen, bits = rng.choice(nets)
-            first = basen
-            last = basen + (1 << (width - bits)) - 1
-            net = "bad" if rng.random() < 0.05 else "%s/%d" % (atok(fam, basen + rng.choice([0, 0, 1])), bits)
-            k = rng.random()
-            if k < 0.25:
-                lo, hi = "-", "-"
-                rl, rh = first + 1, last - 1
-            else:
-                rl = rng.randint(first, last - 1)
-                rh = min(last, rl + rng.choice([0, 1, 2, 3]))
-                lo, hi = atok(fam, rl), atok(fam, rh)
-                if k > 0.97:
-                    hi = "junk"
-            gw = rng.choice(["-", "-", atok(fam, rng.randint(first, last)), "junk"])
-            ex = []
-            if not v6:
-                for _ in range(rng.choice([0, 0, 0, 1, 2])):
-                    a = rng.randint(first, last)
-                    if rng.random() < 0.5:
-                        ex += [atok(4, a), "-"]
-                    else:
-                        ex += [atok(4, a), atok(4, min(last + 1, a + rng.randint(0, 2)))]
-            ptoks += [str(name), str(prio), str(vrf), net, lo, hi, gw, str(len(ex) // 2)] + ex
-            allkeys.append(("%d/%d" % (pf, name), first, last))
-        toks += ptoks
+PD_REG_SHAPES = [(48, 50), (62, 64), (63, 64), (64, 66), (64, 65), (120, 122), (126, 128), (127, 128), (100, 101)]
 
-    def aarg():
+
+def gen_registry(rng, resolve=False, maxops=45):
+    """One registry with IPv4, IA_NA and PD pool lists; pool names are drawn from a small set so that
+    "profile/pool" keys collide across families.  resolve=True: pools of one family are pairwise
+    disjoint (walks are then deterministic) and the ops are ResolveV4/ResolveV6 + exported API."""
+    profiles = rng.choice([[1], [1], [1, 2], [1, 2]])
+    entries = []          # (pf, fam, pgw, [pool dict])
+    keys = {"4": [], "n": [], "d": []}   # (key, first, last) / for d: (key, base, nbits, plen)
+    slot = [0]
+
+    def v4_pool(pf, j, name):
+        bits = rng.choice([29, 30, 30, 28])
+        if resolve or rng.random() < 0.7:
+            slot[0] += 1
+            basen = 0x0a000000 + (slot[0] << 5)
+        else:
+            basen = 0x0a000000
+        first, last = basen, basen + (1 << (32 - bits)) - 1
+        net = "bad" if rng.random() < 0.05 else "%s/%d" % (atok(4, basen + rng.choice([0, 0, 1])), bits)
         k = rng.random()
-        if allkeys and k < 0.8:
-            _, first, last = rng.choice(allkeys)
-            return atok(fam, rng.randint(max(0, first - 1), last + 1))
+        if k < 0.25:
+            lo, hi = "-", "-"
+        else:
+            rl = rng.randint(first, last - 1)
+            rh = min(last, rl + rng.choice([0, 1, 2, 3]))
+            lo, hi = atok(4, rl), (atok(4, rh) if k < 0.97 else "junk")
+        gw = rng.choice(["-", "-", atok(4, rng.randint(first, last)), "junk"])
+        ex = []
+        for _ in range(rng.choice([0, 0, 0, 1, 2])):
+            a = rng.randint(first, last)
+            ex += [atok(4, a), "-"] if rng.random() < 0.5 else [atok(4, a), atok(4, min(last + 1, a + rng.randint(0, 2)))]
+        keys["4"].append(("%d/%d" % (pf, name), first, last))
+        return [str(name), str(rng.choice([-1, 0, 0, 1, 1, 2, 5, 10])), str(rng.choice([0, 0, 1, 1, 2])), net, lo, hi, gw,
+                str(len(ex) // 2)] + ex
+
+    def na_pool(pf, j, name):
+        bits = rng.choice([125, 126, 126, 124])
+        if resolve or rng.random() < 0.7:
+            slot[0] += 1
+            basen = (0x20010db8 << 96) + (slot[0] << 5)
+        else:
+            basen = 0x20010db8 << 96
+        first, last = basen, basen + (1 << (128 - bits)) - 1
+        net = "bad" if rng.random() < 0.05 else "%s/%d" % (atok(6, basen), bits)
+        if rng.random() < 0.25:
+            lo, hi = "-", "-"
+        else:
+            rl = rng.randint(first, last - 1)
+            lo, hi = atok(6, rl), atok(6, min(last, rl + rng.choice([0, 1, 2, 3])))
+        gw = rng.choice(["-", "-", atok(6, rng.randint(first, last)), "junk"])
+        keys["n"].append(("%d/%d" % (pf, name), first, last))
+        return [str(name), "0", str(rng.choice([0, 0, 1, 1, 2])), net, lo, hi, gw, "0"]
+
+    def pd_pool(pf, j, name):
+        nb, pl = rng.choice(PD_REG_SHAPES)
+        if resolve or rng.random() < 0.7:
+            slot[0] += 1
+            net = (0x20010db9 + slot[0]) << 96
+        else:
+            net = 0x20010db9 << 96
+        if rng.random() < 0.3:
+            net |= rng.getrandbits(20)          # unmasked network
+        bad = rng.random() < 0.06
+        nets = "bad" if bad and rng.random() < 0.5 else "%s/%d" % (atok(6, net), nb)
+        if bad and nets != "bad":
+            pl = rng.choice([nb - 1 if nb else 200, nb + 64]) if nb + 64 <= 128 else max(nb - 1, 0)
+        keys["d"].append(("%d/%d" % (pf, name), pd_base(net, nb), nb, pl))
+        return [str(name), "0", str(rng.choice([0, 0, 1, 1, 2])), nets, str(pl), "-", "-", "0"]
+    makers = {"4": v4_pool, "n": na_pool, "d": pd_pool}
+    for fam in ("4", "n", "d"):
+        for pf in profiles:
+            if rng.random() < 0.15:
+                continue
+            nk = rng.choice([0, 1, 2, 2, 3, 3, 4]) if fam == "4" else rng.choice([0, 1, 1, 2, 2, 3])
+            pools = []
+            for j in range(nk):
+                name = rng.choice([1, 2, 3]) if rng.random() < 0.3 else j + 1
+                pools.append(makers[fam](pf, j, name))
+            pgw = rng.choice(["-", "junk", atok(4, 0x0a000001)]) if fam == "4" else "-"
+            entries.append((pf, fam, pgw, pools))
+    # order: every IPv4 list, then per v6 profile IA_NA before PD
+    order = [e for e in entries if e[1] == "4"]
+    for pf in profiles:
+        order += [e for e in entries if e[0] == pf and e[1] == "n"] + [e for e in entries if e[0] == pf and e[1] == "d"]
+    toks = []
+    for pf, fam, pgw, pools in order:
+        toks += [str(pf), fam, pgw, str(len(pools))]
+        for pl in pools:
+            toks += pl
+
+    def arg(fam):
+        k = rng.random()
+        if fam == "d":
+            if keys["d"] and k < 0.85:
+                _, base, nb, pl = rng.choice(keys["d"])
+                if not (0 <= pl - nb <= 63) or pl > 128:
+                    pl, nb = 64, 62
+                shift = 128 - pl
+                i = rng.randrange(1 << min(pl - nb, 6))
+                v = (base + (i << shift)) & ((1 << 128) - 1)
+                r = rng.random()
+                if r < 0.12 and shift:
+                    v |= rng.randrange(1, 1 << min(shift, 40))
+                elif r < 0.2:
+                    v = (v + ((1 << (pl - nb)) << shift)) & ((1 << 128) - 1)
+                elif r < 0.28:
+                    v ^= 1 << rng.choice([127, 120, min(127, 64 + shift)])
+                m = "%d:128" % pl if r < 0.93 else rng.choice(["%d:128" % max(0, pl - 1), "mnil", "%d:32" % min(pl, 32)])
+                return "6:%d/%s" % (v, m)
+            return rng.choice(["nil", "6:%d/64:128" % rng.getrandbits(128), "bad/64:128"])
+        f = 4 if fam == "4" else 6
+        if keys[fam] and k < 0.8:
+            _, first, last = rng.choice(keys[fam])
+            return atok(f, rng.randint(max(0, first - 1), last + 1))
         if k < 0.85:
             return "nil"
         if k < 0.9:
             return "bad"
-        if not v6 and k < 0.95 and allkeys:
-            _, first, last = rng.choice(allkeys)
+        if fam == "4" and k < 0.95 and keys["4"]:
+            _, first, last = rng.choice(keys["4"])
             return atok(6, M32 + rng.randint(first, last))
-        return atok(fam, rng.getrandbits(width - 1))
+        return atok(f, rng.getrandbits(31 if f == 4 else 127))
 
-    def karg():
-        if allkeys and rng.random() < 0.85:
-            return rng.choice(allkeys)[0]
+    def karg(fam):
+        if keys[fam] and rng.random() < 0.85:
+            return rng.choice(keys[fam])[0]
         return "%d/%d" % (rng.randint(1, 3), rng.randint(1, 6))
+
+    def alloc(fam, s=None):
+        return "A%s%d,%d,%d,%d" % (fam, s or rng.randint(1, 4), rng.choice(profiles + ([3] if rng.random() < 0.05 else [])),
+                                   rng.choice([0, 0, 0, 0, 1, 2, 3, 6]), rng.choice([0, 0, 1, 1, 2]))
     ops = []
     for _ in range(rng.randint(3, maxops)):
         k = rng.random()
         s = rng.randint(1, 4)
-        if k < 0.45:
-            ov = rng.choice([0, 0, 0, 0, 1, 2, 3, 6])
-            ops.append("A%d,%d,%d,%d" % (s, rng.randint(1, np_ + (rng.random() < 0.05)), ov, rng.choice([0, 0, 1, 1, 2])))
-        elif k < 0.60:
-            ops.append("L%s,%s" % (karg(), aarg()))
-        elif k < 0.70:
-            ops.append("P%d,%s,%s" % (s, karg(), aarg()))
-        elif k < 0.78:
-            ops.append("R%d,%s" % (s, aarg()))
-        elif k < 0.85:
-            ops.append("I" + aarg())
+        fam = rng.choice(["4", "4", "n", "d", "d"])
+        if resolve:
+            if k < 0.25:
+                have = "-" if rng.random() < 0.6 or not keys["4"] else atok(4, rng.randint(*rng.choice(keys["4"])[1:]))
+                ops.append("Y%d,%d,%d,%d,%s" % (s, rng.choice(profiles), rng.choice([0, 0, 0, 1, 2, 6]), rng.choice([0, 0, 1, 2]), have))
+            elif k < 0.55:
+                hna = "-" if rng.random() < 0.6 or not keys["n"] else atok(6, rng.randint(*rng.choice(keys["n"])[1:]))
+                hpd = "-" if rng.random() < 0.6 else arg("d")
+                if hpd in ("nil",) or hpd.startswith("bad"):
+                    hpd = "-"
+                ops.append("Z%d,%d,%d,%d,%d,%s,%s" % (s, rng.choice(profiles), rng.choice([0, 0, 0, 1, 2]), rng.choice([0, 0, 0, 1, 2]),
+                                                      rng.choice([0, 0, 1, 2]), hna, hpd))
+            elif k < 0.75:
+                ops.append(alloc(fam, s))
+            elif k < 0.9:
+                ops.append("L%s%s,%s" % (fam, karg(fam), arg(fam)))
+            else:
+                ops.append("I%s%s" % (fam, arg(fam)))
+            continue
+        if k < 0.42:
+            ops.append(alloc(fam, s))
+        elif k < 0.54:
+            ops.append("L%s%s,%s" % (fam, karg(fam), arg(fam)))
+        elif k < 0.64:
+            ops.append("P%s%d,%s,%s" % (fam, s, karg(fam), arg(fam)))
+        elif k < 0.72:
+            ops.append("R%s%d,%s" % (fam, s, arg(fam)))
+        elif k < 0.79:
+            ops.append("Q%s%s,%s" % (fam, karg(fam), arg(fam)))
+        elif k < 0.86:
+            ops.append("I%s%s" % (fam, arg(fam)))
         elif k < 0.89:
             ops.append("D%d" % rng.randint(0, 1))
         elif k < 0.96:
-            ops.append("V" + karg())
+            ops.append("V%s%s" % (fam, karg(fam)))
         else:
-            ops.append("O%d" % rng.randint(1, np_))
-    if rng.random() < 0.5:
-        for pf in range(1, np_ + 1):
-            for vrf in (0, 1, 2):
-                ops += ["A%d,%d,0,%d" % (rng.randint(1, 4), pf, vrf)] * rng.randint(2, 7)
-    return "%s %d %s ; %s" % ("reg6" if v6 else "reg4", np_, " ".join(toks), " ".join(ops))
+            ops.append("O%s%d" % (fam, rng.choice(profiles)))
+    if rng.random() < 0.6:
+        for fam in ("4", "n", "d"):
+            for pf in profiles:
+                for vrf in (0, 1, 2):
+                    ops += ["A%s%d,%d,0,%d" % (fam, rng.randint(1, 4), pf, vrf)] * rng.randint(2, 6)
+    return "%s %d %s ; %s" % ("res" if resolve else "reg", len(order), " ".join(toks), " ".join(ops))
 
 
 def exhaustive_small():
@@ -325,12 +426,14 @@ def gen_cases(rng, tier, budget):
     import itertools
     cases = []
     n = budget or (700 if tier == "quick" else 30000)
-    for _ in range(n * 5 // 10):
+    for _ in range(n * 40 // 100):
         cases.append(gen_pool(rng))
-    for _ in range(n * 3 // 10):
+    for _ in range(n * 25 // 100):
         cases.append(gen_pd(rng))
-    for _ in range(n * 2 // 10):
-        cases.append(gen_reg(rng))
+    for _ in range(n * 25 // 100):
+        cases.append(gen_registry(rng))
+    for _ in range(n * 10 // 100):
+        cases.append(gen_registry(rng, resolve=True))
     # bounded-exhaustive block
     lo, hi, ex, alpha = exhaustive_small()
     L = 2 if tier == "quick" else 4
@@ -479,13 +582,13 @@ def monitor_pd(head, ops, outs):
 
 
 def parse_reg(head):
-    v6 = head[0] == "reg6"
+    """-> list of (pf, fam, profile gw, [pool dict]) in configuration order"""
     np_ = int(head[1])
     p = 2
-    profiles = {}
+    out = []
     for _ in range(np_):
-        pf, pgw, nk = head[p], head[p + 1], int(head[p + 2])
-        p += 3
+        pf, fam, pgw, nk = head[p], head[p + 1], head[p + 2], int(head[p + 3])
+        p += 4
         pools = []
         for _ in range(nk):
             name, prio, vrf, net, lo, hi, gw, ne = head[p:p + 8]
@@ -493,32 +596,68 @@ def parse_reg(head):
             ex = head[p:p + 2 * int(ne)]
             p += 2 * int(ne)
             pools.append(dict(name=name, prio=int(prio), vrf=vrf, net=net, lo=lo, hi=hi, gw=gw, ex=ex))
-        profiles[pf] = dict(gw=pgw, pools=pools)
-    return v6, profiles
+        out.append((pf, fam, pgw, pools))
+    return out
+
+
+def reg_vrfs(entries, shared):
+    """effective VRF per (fam, key): last non-empty VRF configured under the key, per family (the
+    property) or across families (shared=True: the single poolVRFs map of the code as found)"""
+    m = {}
+    for pf, fam, _, pools in entries:
+        for q in pools:
+            if q["vrf"] != "0":
+                m[("*" if shared else fam, "%s/%s" % (pf, q["name"]))] = q["vrf"]
+    return lambda fam, key: m.get(("*" if shared else fam, key), "0")
 
 
 def monitor_reg(head, ops, outs):
-    """VRF confinement and priority order of Allocate*FromProfile, from the configuration alone."""
-    v6, profiles = parse_reg(head)
+    """VRF confinement of Allocate*FromProfile / ResolveV4 / ResolveV6 from the configuration alone:
+    the VRF of a pool is what ITS family's configuration says."""
+    entries = parse_reg(head)
+    vrf_of = reg_vrfs(entries, shared=False)
+    names = {}
+    for pf, fam, _, pools in entries:
+        for q in pools:
+            names.setdefault((fam, pf), set()).add(q["name"])
+
+    def check(i, op, fam, pf, ov, vrf, key):
+        kpf, kname = key.split("/")
+        if kpf != pf:
+            return "op %d %s: answered from pool %s of another profile" % (i, op, key)
+        if ov != "0" and kname == ov:
+            return None
+        if kname not in names.get((fam, pf), ()):
+            return "op %d %s: answered from unknown pool %s" % (i, op, key)
+        eff = vrf_of(fam, key)
+        if eff != vrf:
+            return "op %d %s: subscriber VRF %s was served from %s pool %s, configured for VRF %s" % (
+                i, op, vrf, {"4": "IPv4", "n": "IA_NA", "d": "PD"}[fam], key, eff)
+        return None
     for i, (op, o) in enumerate(zip(ops, outs)):
         if o.startswith("INADMISSIBLE") or o in ("panic", "hang"):
             return None
         if op[0] == "A" and o.startswith("a"):
-            s, pf, ov, vrf = op[1:].split(",")
-            key = o[1:].split("=")[0]
-            kpf, kname = key.split("/")
-            if kpf != pf:
-                return "op %d %s: answered from pool %s of another profile" % (i, op, key)
-            if ov != "0" and kname == ov:
-                continue
-            cands = [q for q in profiles.get(pf, {"pools": []})["pools"] if q["name"] == kname]
-            if not cands:
-                return "op %d %s: answered from unknown pool %s" % (i, op, key)
-            # poolVRFs keeps the last non-empty VRF configured under that key
-            vrfs = [q["vrf"] for q in cands if q["vrf"] != "0"]
-            eff = vrfs[-1] if vrfs else "0"
-            if eff != vrf:
-                return "op %d %s: subscriber VRF %s got an address from pool %s of VRF %s" % (i, op, vrf, key, eff)
+            s, pf, ov, vrf = op[2:].split(",")
+            v = check(i, op, op[1], pf, ov, vrf, o[1:].split("=")[0])
+            if v:
+                return v
+        elif op[0] == "Y" and o.startswith("r") and not o.endswith("@-"):
+            s, pf, ov, vrf, have = op[1:].split(",")
+            v = check(i, op, "4", pf, ov, vrf, o.split("@")[1])
+            if v:
+                return v
+        elif op[0] == "Z":
+            s, pf, naov, pdov, vrf, hna, hpd = op[1:].split(",")
+            fl = dict(x.split("=", 1) for x in o.split(";")[1:] if "=" in x)
+            if fl.get("napool", "-") != "-":
+                v = check(i, op, "n", pf, naov, vrf, fl["napool"])
+                if v:
+                    return v
+            if fl.get("pdpool", "-") != "-":
+                v = check(i, op, "d", pf, pdov, vrf, fl["pdpool"])
+                if v:
+                    return v
     return None
 
 
@@ -535,7 +674,7 @@ def monitor(case, impl):
             if impl.strip() == "nilalloc":
                 return None
             return monitor_pd(head, ops, outs)
-        return monitor_reg(head, ops, outs)
+        return monitor_reg(head, ops, outs[:len(ops)])
     except Exception as e:  # a monitor bug must not hide a mismatch
         return None
 
@@ -560,8 +699,19 @@ def classify(case, impl, model):
 
 
 def signature(case, impl, models):
-    """Specific signatures for the two recorded defects; anything else is unexplained."""
+    """Specific signatures for the recorded defects; anything else is unexplained."""
     head, ops = split_case(case)
+    if head[0] in ("reg", "res"):
+        # one poolVRFs map for three families: some "profile/pool" key is configured in two families
+        # and the shared map gives one of them another VRF than its own family's configuration
+        entries = parse_reg(head)
+        own, shared = reg_vrfs(entries, False), reg_vrfs(entries, True)
+        for pf, fam, _, pools in entries:
+            for q in pools:
+                k = "%s/%s" % (pf, q["name"])
+                if own(fam, k) != shared(fam, k):
+                    return "registry.poolVRFs:shared-across-families"
+        return "unexplained-registry"
     if head[0] == "pd":
         net, nb, pl = int(head[1]), int(head[2]), int(head[3])
         base = pd_base(net, nb)
@@ -572,79 +722,18 @@ def signature(case, impl, models):
                         (p[0] >> (128 - nb) != base >> (128 - nb) if nb < 128 else p[0] != base):
                     return "prefix.prefixToIndex:foreign-prefix-aliases-an-index"
         return "unexplained-pd"
-    # pool / registry: an address that was reserved although the pool may not hand it out
-    # (excluded, gateway, out of range) was released afterwards
-    if head[0] == "pool":
-        geoms = {"": pool_geometry(head)}
-    else:
-        geoms = reg_geometries(head)
-
-    def unassignable(g, a):
-        lo, hi, ex = g
-        return not (a[0] == lo[0] and lo[1] <= a[1] <= hi[1]) or a in ex
-
-    def inrange(g, a):
-        lo, hi, ex = g
-        return a[0] == lo[0] and lo[1] <= a[1] <= hi[1]
-    held = set()          # (pool key or "", address) reserved while unassignable there
+    # pool: an address that was reserved although the pool may not hand it out was released afterwards
+    lo, hi, ex = pool_geometry(head)
+    held = set()
     for op in ops:
-        q = op[1:].split(",")
-        a = parse_addr(q[-1]) if op[0] in "RPLI" else None
+        a = parse_addr(op[1:].split(",")[-1]) if op[0] in "RL" else None
         if a is None:
             continue
-        if op[0] == "R" or (op[0] == "P" and geoms.get(q[1]) is None):
-            for k, g in geoms.items():
-                if g and (head[0] == "pool" or inrange(g, a)) and unassignable(g, a):
-                    held.add((k, a))
-        elif op[0] == "P":
-            g = geoms[q[1]]
-            if g and unassignable(g, a):
-                held.add((q[1], a))
-        elif op[0] == "L":
-            k = "" if head[0] == "pool" else q[0]
-            if (k, a) in held:
-                return "pool.Release:unassignable-address-returned-to-free-list"
-        elif op[0] == "I" and any(x == a for _, x in held):
+        if op[0] == "R" and (not (a[0] == lo[0] and lo[1] <= a[1] <= hi[1]) or a in ex):
+            held.add(a)
+        elif op[0] == "L" and a in held:
             return "pool.Release:unassignable-address-returned-to-free-list"
     return "unexplained-pool"
-
-
-def reg_geometries(head):
-    """key -> (lo, hi, excluded) of the allocator created for it (first pool of that name wins), or None"""
-    v6, profiles = parse_reg(head)
-    fam = 6 if v6 else 4
-    width = 128 if v6 else 32
-    out = {}
-    for pf, pr in profiles.items():
-        for q in pr["pools"]:
-            key = "%s/%s" % (pf, q["name"])
-            if key in out and out[key] is not None:
-                continue
-            if q["net"] == "bad" or "junk" in (q["lo"], q["hi"]):
-                out.setdefault(key, None)
-                continue
-            nb, bits = q["net"].split("/")
-            m = 1 << (width - int(bits))
-            first = (parse_addr(nb)[1] // m) * m
-            lo = (fam, first + 1) if q["lo"] == "-" else parse_addr(q["lo"])
-            hi = (fam, first + m - 2) if q["hi"] == "-" else parse_addr(q["hi"])
-            gw = q["gw"] if (v6 or q["gw"] != "-") else pr["gw"]
-            ex = set()
-            if gw not in ("-", "junk"):
-                ex.add(parse_addr(gw))
-            if not v6:
-                for j in range(0, len(q["ex"]), 2):
-                    a, b = q["ex"][j], q["ex"][j + 1]
-                    if "junk" in (a, b):
-                        continue
-                    if b == "-":
-                        ex.add(parse_addr(a))
-                    else:
-                        pa, pb = parse_addr(a), parse_addr(b)
-                        if pa[0] == pb[0] and pb[1] - pa[1] < 100000:
-                            ex.update((pa[0], n) for n in range(pa[1], pb[1] + 1))
-            out[key] = (lo, hi, ex)
-    return out
 
 
 def nontrivial(case, out):
@@ -674,7 +763,7 @@ def shrink(case):
 
 
 def distribution(cases, impl):
-    d = {"pool": 0, "pd": 0, "reg4": 0, "reg6": 0, "ops": 0, "alloc_ok": 0, "exhausted": 0, "conflict": 0,
+    d = {"pool": 0, "pd": 0, "reg": 0, "res": 0, "ops": 0, "alloc_ok": 0, "exhausted": 0, "conflict": 0,
          "contains_true": 0, "nilalloc": 0, "max_ops": 0}
     opk = {}
     for c, o in zip(cases, impl):
@@ -693,7 +782,7 @@ def distribution(cases, impl):
                 d["contains_true"] += 1
             elif x == "nilalloc":
                 d["nilalloc"] += 1
-            elif x[0] in "ap" and x != "panic":
+            elif x[0] in "apr" and x not in ("panic", "res") and not x.startswith("res@"):
                 d["alloc_ok"] += 1
     d["op_mix"] = opk
     return d
